@@ -10,7 +10,7 @@ RULE = ('Hypothesis draws a domain (1-5 attrs, sizes 1-6, non-lexicographic name
         'boundary values), an optional weight vector (ints / non-integers / zeros), a data frame whose columns are '
         'shuffled and may include unused extra columns, a projection (ordered subset incl. full permutations; str / '
         'list / tuple spelling), a second projection applied to the first, a drop list, and a second domain for the '
-        'binary domain laws. Oracle: Counter-based contingency table + plain ordered-dict model of Domain. Non-trivial = '
+        'binary domain laws; the vector is asked for again after the caller overwrote the first answer in place. Oracle: Counter-based contingency table + plain ordered-dict model of Domain. Non-trivial = '
         '>=2 attributes and (projection order != domain order or weights present or columns shuffled) with >=1 record; '
         'distinct by sha1 of the case.')
 BUDGET = {'quick': 8000, 'thorough': 160000}
@@ -106,6 +106,11 @@ def run_case(case):
 
     v = data.datavector(flatten=False)
     cmp('datavector', v, T) and cmp('datavector_flat', data.datavector(), T.flatten())
+    if out.ok and isinstance(v, np.ndarray) and v.ndim > 0 and v.flags.writeable:
+        # callers normalise / add noise to the vector they were handed, in place; asking the same object again
+        # must still give the contingency table
+        v[...] = -777.0
+        cmp('datavector:after_caller_edit', data.datavector(flatten=False), T) and cmp('datavector_flat:after_caller_edit', data.datavector(), T.flatten())
     if out.ok and data.records != n:
         out.fail('mismatch:records', 'records %r != %d' % (data.records, n))
     if out.ok and (tuple(data.domain.attrs) != tuple(attrs) or list(data.df.columns) != attrs):
@@ -184,6 +189,10 @@ def domain_laws(out, Domain, attrs, shape, case):
         return out.fail('mismatch:domain:axes', 'axes(%s) = %s' % (proj, D.axes(proj)))
     if tuple(D.canonical(proj)) != tuple(a for a in attrs if a in proj):
         return out.fail('mismatch:domain:canonical', 'canonical(%s) = %s' % (proj, D.canonical(proj)))
+    # callers pass concatenated cliques (GraphicalModel.calculate_many_marginals: key[0] + key[1]): repeats are a set
+    cat = tuple(proj) + tuple(sub)
+    if tuple(D.canonical(cat)) != tuple(a for a in attrs if a in cat) or D.size(D.canonical(cat)) != prod([a for a in attrs if a in cat]):
+        return out.fail('mismatch:domain:canonical_concat', 'canonical(%s) = %s' % (cat, D.canonical(cat)))
     if D.size([]) != 1 or D.size(()) != 1 or D.project([]).size() != 1 or D.size(sub) * D.size(D.invert(sub)) != prod(attrs):
         return out.fail('mismatch:domain:size_empty', 'size([]) = %r, size(()) = %r, size(S)*size(invert(S)) = %r for S = %s' % (D.size([]), D.size(()), D.size(sub) * D.size(D.invert(sub)), sub))
     if D.size() != prod(attrs) or D.size(proj) != prod(proj) or D.size(proj[0]) != sizes[proj[0]]:
